@@ -6,7 +6,7 @@ RULE = ("client streams of framed commands (QUERY/PREPARE payloads of letters, P
         "M in {1,2,3,5} with EVERY composition of the command bytes into reads (exhaustive up to the stated "
         "stream length), at M in {8,255} with payload lengths k*M+d (k<=3, d in -2..2) under 1-byte, header-splitting, "
         "command-spanning, single-read and random chunkings, and at the real limit 2^24-1 with payloads of "
-        "M-1, M, M+1, 2M, 2M+1 bytes (implementation vs specification only); plus buffer-boundary streams at the real limit: "
+        "M-1, M, M+1, 2M, 2M+1, 5M+3, 6M, 9M+1 bytes (implementation vs specification only); plus buffer-boundary streams at the real limit: "
         "with e in {0,1,100,2048,3000,4096} bytes pending, one read of exactly max(4096,2e)-e (+-1) bytes that completes the pending "
         "command(s), as one command or many, after which the peer is silent; non-trivial = the stream contains a "
         "multi-packet command or a read boundary inside a header or spanning two commands; distinct = distinct case text")
@@ -154,7 +154,8 @@ def gen_fill(ctx):
 def gen_real(ctx):
     cases = []
     M = U24_MAX
-    sizes = [M - 1, M, M + 1] if ctx.quick() else [M - 1, M, M + 1, 2 * M, 2 * M + 1]
+    # 5 and more maximal fragments: beyond any "reasonable" bound on the number of fragments of one command
+    sizes = [M - 1, M, M + 1, 5 * M + 3] if ctx.quick() else [M - 1, M, M + 1, 2 * M, 2 * M + 1, 5 * M + 3, 6 * M, 9 * M + 1]
     for i, ln in enumerate(sizes):
         p = b"\x03" + b"a" * (ln - 1)
         c = mk_case("c01_real_%d" % i, [("query", p, 0), ("query", b"\x03tail", 0)], [], lim=M, chunks=[2048, 3, 1 << 20, 1 << 24], cap=1 << 26)   # the transport splits to what the buffer offers
